@@ -109,6 +109,7 @@ func ruleC08NewSize(e *Env) {
 	)
 	kZU := "lookup#1(*size." + e.vname("size", "zeroUnits") + ",unit)"
 	kUTV := "lookup#1(*size." + e.vname("size", "unitToValues") + ",unit)"
+	kZUval := "lookup(*size." + e.vname("size", "zeroUnits") + ",unit)"
 	keyOf := func(a, b pred.Val) (string, bool) {
 		as, bs := a.String(), b.String()
 		switch {
@@ -120,6 +121,8 @@ func ruleC08NewSize(e *Env) {
 			return kByte, true // a fast path for the unit whose multiplier is 1 (C08.tab: B = 1)
 		case (as == kZU || as == kUTV) && bs == "true":
 			return as, true
+		case as == kZUval && bs == "true":
+			return kZU, true // the set spelled map[string]bool: the looked-up value is the membership (C08.tab reads it so)
 		case strings.HasPrefix(as, "conv[") && strings.Contains(as, "value") && bs == "value":
 			return kRound, true
 		case bs == "value" && strings.HasPrefix(as, "conv["):
@@ -674,6 +677,12 @@ func ruleC08Object(e *Env) {
 				txt := false
 				if sc, isS := c.Call.Args[0].(*ssa.Call); isS && calleeName(&sc.Call) == "(encoding/json.Number).String" {
 					if ta := typeAssertOperand(sc.Call.Args[0]); ta != nil && tokenOf(ta) {
+						txt = true
+					}
+				}
+				// … or the conversion string(n): json.Number is a string type, String() is that conversion
+				if cv, isCv := c.Call.Args[0].(*ssa.ChangeType); isCv {
+					if ta := typeAssertOperand(cv.X); ta != nil && tokenOf(ta) {
 						txt = true
 					}
 				}
